@@ -611,6 +611,21 @@ func randTup(r *Rng, typ string, format int, distinct bool) string {
 		n := r.Pick(0, 1, 2, 5, 12, 40)
 		b := r.BytesFrom(n, []byte("abcXYZ\\._-$ 09"))
 		return fmt.Sprintf("%d,%d|%s", format, len(b), hx(b))
+	case "SMB_RESUME_KEY":
+		rsv := r.Intn(256)
+		ss, cs := r.Bytes(16), r.Bytes(4)
+		buf := append(append([]byte{byte(rsv)}, ss...), cs...)
+		return fmt.Sprintf("5,21,%d|%s,%s,%s", rsv, hx(buf), hx(ss), hx(cs))
+	case "SMB_DIRECTORY_INFORMATION":
+		rsv := r.Intn(256)
+		ss, cs := r.Bytes(16), r.Bytes(4)
+		buf := append(append([]byte{byte(rsv)}, ss...), cs...)
+		name := r.BytesFrom(r.Intn(13), []byte("ABCDEFGH.TXT~1"))
+		for len(name) < 12 {
+			name = append(name, ' ')
+		}
+		return fmt.Sprintf("5,21,%d,%d,%d,%d,%d,%d,%d,%d,4,12|%s,%s,%s,%s", rsv, r.Intn(256), randIntBits(r, 32, distinct), randIntBits(r, 32, distinct),
+			1980+r.Intn(128), r.Intn(16), r.Intn(32), randIntBits(r, 32, distinct), hx(buf), hx(ss), hx(cs), hx(name))
 	case "Dialects":
 		k := r.Intn(5)
 		var bs [][]byte
